@@ -247,9 +247,11 @@ def check_scenario(run, sc, gens, driven, mres, ins_cls, en_cls, an, stream):
         if len(set(names_in)) != len(names_in) or len(set(names_en)) != len(names_en):
             problems.append("duplicate class")
         if problems:
+            only_missing = set(names_in) <= spec_in and set(names_en) <= spec_en and all("missing" in p for p in problems)
             fail(f"[{tag}] retained definitions are not the closure: " + "; ".join(problems[:4]),
                  {"observed": {"inputs": names_in, "enums": names_en},
-                  "expected": {"inputs": sorted(spec_in), "enums": sorted(spec_en)}}, cls=None)
+                  "expected": {"inputs": sorted(spec_in), "enums": sorted(spec_en)}},
+                 cls=cls if only_missing else None)
         elif not k1_ok:
             run.violation(f"[{tag}] K1b: Model/Prune.v predicts inputs {[n for n, _ in m_in]} enums {[n for n, _ in m_en]}, "
                           f"generator wrote inputs {names_in} enums {names_en} (closure oracle still satisfied)",
@@ -311,6 +313,12 @@ def run_stream(ctx, scs, stream, extra_cfg=None, n_plans=2):
         cmds, meta = [], []
         for sc, gens in usable:
             an = prune_inputs.Analysis(sc.sdl, sc.queries)
+            if stream == "custom_ops":
+                # the builder modules' own imports are part of what is needed
+                bi, be = prune_inputs.builder_imports(gens[0].files(), set(an.graph), set(an.enum_names))
+                an.arg_inputs = an.arg_inputs + bi
+                an.arg_enums = an.arg_enums + be
+                run.dist("custom_ops_builder_imports", f"inputs={len(bi)},enums={len(be)}")
             c, ins_cls, en_cls = model_cmds(an, gens[0].files())
             cmds += c
             meta.append((an, ins_cls, en_cls))
